@@ -8,7 +8,7 @@
    "probability of a" = cnt a (outcomes) / length (outcomes).  [mult s] is the common
    multiplicity (product of the factorials of the vertex degrees in that topology). *)
 From Coq Require Import List ZArith Bool Arith Permutation.
-From GV Require Import Lib.Tree Model.Gen Proofs.GenP Proofs.GenPermP.
+From GV Require Import Lib.Tree Model.Gen Proofs.GenP Proofs.GenPermP Proofs.GenC03P.
 Import ListNotations.
 
 (* the schedule space of one shuffle is exactly the set of position permutations, each once:
@@ -114,3 +114,89 @@ Qed.
 Example C03_checker_rejects_no_shuffle :
   c03_okb [[1]; [1]; [1]; [1]] [([[0; 1; 2; 3]], 1)] = false.
 Proof. vm_compute. reflexivity. Qed.
+
+(* ================================================================== Growth *)
+(* the histogram checker is also COMPLETE: it decides "flat and complete over the placement space" *)
+Theorem C03_checker_complete : forall jds obs, Spec_C03 jds obs -> c03_okb jds obs = true.
+Proof. exact c03_okb_complete. Qed.
+Print Assumptions C03_checker_complete.
+
+Theorem C03_checker_iff_spec : forall jds obs, c03_okb jds obs = true <-> Spec_C03 jds obs.
+Proof. exact c03_okb_iff. Qed.
+Print Assumptions C03_checker_iff_spec.
+
+(* (a) the verified checker accepts the model's own outcome histogram for EVERY joint degree sequence *)
+Theorem C03_model_passes_checker : forall jds, c03_okb jds (obs_model jds) = true.
+Proof. exact model_passes_c03_okb. Qed.
+Print Assumptions C03_model_passes_checker.
+
+(* the common weight: #schedules = #placements * multiplicity *)
+Theorem C03_schedule_count : forall jds,
+  length (schedules jds) = length (placement_space jds) * multl (all_stubs jds).
+Proof. exact model_histogram_weight. Qed.
+Print Assumptions C03_schedule_count.
+
+(* (b) the map "callback calls -> placement" that c03_check applies to every observed run, tied to
+   shuffle_all.  Fast / network generator: the placement read off the calls IS the tuple of shuffled
+   stub lists ... *)
+Theorem C03_placement_fast_is_shuffle : forall sizes jds pis,
+  Valid sizes (singleton_mis (ncols jds)) jds -> PisOk jds pis ->
+  placement sizes (singleton_mis (ncols jds)) (ncols jds)
+            (map flat_call (fst (plan_fast sizes jds pis))) =
+  shuffle_all pis (all_stubs jds).
+Proof. exact placement_fast. Qed.
+Print Assumptions C03_placement_fast_is_shuffle.
+
+(* ... custom generator (list.pop() takes the last partition first): every orbit's slots are its
+   shuffled stub list with the consecutive groups in reverse order ... *)
+Theorem C03_placement_custom_is_block_reversed_shuffle : forall sizes mis jds pis,
+  Valid sizes mis jds -> PisOk jds pis ->
+  placement sizes mis (ncols jds) (map flat_call (fst (plan_custom sizes mis jds pis))) =
+  block_rev_all sizes (shuffle_all pis (all_stubs jds)).
+Proof. exact placement_custom. Qed.
+Print Assumptions C03_placement_custom_is_block_reversed_shuffle.
+
+(* ... which is a bijection on the arrangements of a stub list (an involution that permutes) *)
+Theorem C03_block_reversal_involutive : forall n a, 0 < n -> length a mod n = 0 ->
+  block_rev n (block_rev n a) = a /\ Permutation (block_rev n a) a.
+Proof. exact block_rev_invol_perm. Qed.
+Print Assumptions C03_block_reversal_involutive.
+
+(* hence the histogram c03_check builds from the calls of ALL runs of the sample space is accepted,
+   for every valid configuration of either generator *)
+Theorem C03_fast_calls_pass_checker : forall sizes jds,
+  Valid sizes (singleton_mis (ncols jds)) jds -> c03_okb jds (obs_calls_fast sizes jds) = true.
+Proof. exact fast_calls_pass_c03_okb. Qed.
+Print Assumptions C03_fast_calls_pass_checker.
+
+Theorem C03_custom_calls_pass_checker : forall sizes mis jds,
+  Valid sizes mis jds -> c03_okb jds (obs_calls_custom sizes mis jds) = true.
+Proof. exact custom_calls_pass_c03_okb. Qed.
+Print Assumptions C03_custom_calls_pass_checker.
+
+(* every schedule of the sample space is an admissible schedule of the C01 theorems *)
+Theorem C03_schedules_are_PisOk : forall jds pis, In pis (schedules jds) -> PisOk jds pis.
+Proof. exact schedules_PisOk. Qed.
+Print Assumptions C03_schedules_are_PisOk.
+
+(* non-vacuity: a two-orbit custom configuration (degrees (1,2),(1,0),(2,0); orbit sizes 2 and 1) is
+   valid, the identity schedule is admissible, the block reversal is visible (the placement differs
+   from the shuffled lists), and the checker accepts the 4!*2! = 48-run histogram by computation too *)
+Example C03_custom_config_valid :
+  let jds := [[1; 2]; [1; 0]; [2; 0]] in
+  let pis := [[0; 1; 2; 3]; [0; 1]] in
+  validb [2; 1] [[0; 1]] jds = true /\ In pis (schedules jds) /\
+  shuffle_all pis (all_stubs jds) = [[0; 1; 2; 2]; [0; 0]] /\
+  placement [2; 1] [[0; 1]] 2 (map flat_call (fst (plan_custom [2; 1] [[0; 1]] jds pis))) = [[2; 2; 0; 1]; [0; 0]] /\
+  length (obs_calls_custom [2; 1] [[0; 1]] jds) = 48 /\
+  c03_okb jds (obs_calls_custom [2; 1] [[0; 1]] jds) = true.
+Proof.
+  cbv zeta. split; [vm_compute; reflexivity|]. split.
+  - apply memllb_In. vm_compute. reflexivity.
+  - vm_compute. repeat split.
+Qed.
+
+Example C03_fast_config_valid :
+  validb [2; 3] (singleton_mis 2) [[1; 1]; [1; 2]; [2; 0]] = true /\
+  c03_okb [[1; 1]; [1; 2]; [2; 0]] (obs_calls_fast [2; 3] [[1; 1]; [1; 2]; [2; 0]]) = true.
+Proof. vm_compute. split; reflexivity. Qed.
